@@ -4,84 +4,78 @@
    Model: Model/Sched.v.  Every method of XmlContext that parsers and serializers
    use (build, fetch, find_types, find_type, find_subclass, build_xsi_cache) is cut
    into atomic actions — one marked source line of context.py each: a dict
-   membership test, read, store or clear, a list append or read, an attribute read
-   or store.  `conc_run w st progs sched`: the threads `progs` (call-level scripts
-   of Model/Context.v, expanded to actions) start on the shared state `st`, perform
-   their actions in the order `sched` says (a list of thread numbers, any length),
-   then run to completion; the result of every thread.  `solo_run w st s`: s alone
-   on st.  The world (classes, len(sys.modules)) does not change during a run. *)
+   membership test, read or store, an attribute read or store.  `conc_run w st progs
+   sched`: the threads `progs` (call-level scripts of Model/Context.v, expanded to
+   actions) start on the shared state `st`, perform their actions in the order
+   `sched` says (a list of thread numbers, any length), then run to completion; the
+   result of every thread.  `solo_run w st s`: s alone on st.  The world (classes,
+   len(sys.modules)) does not change during a run.
+
+   History: until /repo commit ece294b build_xsi_cache cleared and refilled the shared
+   index in place; `C19_cold_index_race_refuted` (a thread observing the cleared index:
+   find_type -> None, "No class found matching root") held of the model and of the
+   code, and the theorem needed a `warm` guard clause.  The index is now built aside
+   and published with one store; the refutation and the clause are gone, the theorem
+   covers cold contexts.  The old forced schedule stays in the check (harness/c19.py). *)
 From Coq Require Import String NArith List Bool.
 From XV Require Import Base.Str Base.Eqb Model.Context Model.Sched
   Proofs.ContextWitness Proofs.SchedSafe Proofs.SchedWitness.
 Import ListNotations.
 Open Scope N_scope.
 
-(* The property at full strength — for every state st a context can be in, all
-   thread sets and all schedules:
+(* The property at full strength — for every state, all thread sets, all schedules:
      conc_run w st progs sched = map (solo_run w st) progs
-   is FALSE of the faithful model (and of the implementation).  On a cold context two
-   threads that both look a class up by its qualified name: *)
-Theorem C19_cold_index_race_refuted :
-  exists w progs sched i,
-    nth_error (conc_run w s0 progs sched) i <> nth_error (map (solo_run w s0) progs) i
-    /\ conc_guard w [] progs = true        (* the requests are ns-closed: only "warm" fails *)
-    /\ warm_b w s0 = false.
-Proof.
-  exists W, [ftPA; ftPA], race_sched, 1%nat. destruct cold_index_race as [H [G Wm]].
-  split; [|split; assumption]. cbn [map nth_error]. exact H.
-Qed.
-Print Assumptions C19_cold_index_race_refuted.
-
-(* what the parser makes of it: "No class found matching root" *)
-Theorem C19_cold_index_race_parse :
-  conc_run W s0 [parsePA; parsePA] race_sched
-  = [ROk (tree_of_value vPA); RErr e_parser (q "No class found matching root: {urn:a}PA")]
-  /\ solo_run W s0 parsePA = ROk (tree_of_value vPA).
-Proof. exact race_parse. Qed.
-Print Assumptions C19_cold_index_race_parse.
-
-(* second refutation: the concurrent form of the cache-key defect of C14 (warm context) *)
+   is FALSE of the faithful model (and of the implementation): the concurrent form of the
+   cache-key defect of C14.  Two threads serialize parents in different namespaces that
+   share a child class without a namespace of its own: *)
 Theorem C19_ns_cache_key_concurrent_refuted :
   exists w st progs sched i,
     nth_error (conc_run w st progs sched) i <> nth_error (map (solo_run w st) progs) i
-    /\ warm_b w st = true /\ conc_guard w (s_cache st) progs = false.
+    /\ conc_guard w st progs = false.
 Proof.
-  exists W, warm1, ns_threads, ns_sched, 1%nat. destruct ns_race as [H [Wm G]].
-  split; [|split; assumption]. cbn [map nth_error ns_threads]. exact H.
+  exists W, warm1, ns_threads, ns_sched, 1%nat. destruct ns_race as [H G].
+  split; [|assumption]. cbn [map nth_error ns_threads]. exact H.
 Qed.
 Print Assumptions C19_ns_cache_key_concurrent_refuted.
 
-(* The guarded theorem.  Guards (computable, Model/Sched.v):
-     warm_b w st       build_xsi_cache has run for the current world: sys_modules is
-                       len(sys.modules) and the index holds what it would build
-     conc_guard w (s_cache st) progs =
-       world_ok w && cache_known w cache && index_short w
-       && consistent (cache ++ requests of all threads)
-                       every class is requested — by any thread, or earlier — under parent
-                       namespaces that give one and the same metadata.
-   For ANY number of threads and ANY schedule every call returns what the stateless
-   reference semantics says, which is also what it returns when it runs alone: *)
-Theorem C19_warm_context_safe :
+(* The guarded theorem.  conc_guard w st progs (computable, Model/Sched.v) =
+     world_ok w && cache_known w (s_cache st)
+     && consistent (s_cache st ++ requests of all threads)
+   every class is requested — by any thread, or earlier — under parent namespaces that
+   give one and the same metadata.  Nothing is assumed about the index: the context may
+   be cold, warm, or hold a stale index.  For ANY number of threads and ANY schedule every
+   call returns what the reference semantics says over the index all lookups answer from
+   (eff_index: the one held if it counts as current, else the one any thread builds),
+   which is also what the call returns when it runs alone: *)
+Theorem C19_context_safe :
   forall w st progs sched,
-  warm_b w st = true -> conc_guard w (s_cache st) progs = true ->
-  conc_run w st progs sched = map (ideal_run_c w) progs
-  /\ map (solo_run w st) progs = map (ideal_run_c w) progs.
-Proof. exact warm_context_safe. Qed.
-Print Assumptions C19_warm_context_safe.
+  conc_guard w st progs = true ->
+  conc_run w st progs sched = map (ref_run w (eff_index w st)) progs
+  /\ map (solo_run w st) progs = map (ref_run w (eff_index w st)) progs.
+Proof. exact context_safe. Qed.
+Print Assumptions C19_context_safe.
 
-Theorem C19_warm_context_solo :
+Theorem C19_context_safe_solo :
   forall w st progs sched,
-  warm_b w st = true -> conc_guard w (s_cache st) progs = true ->
-  conc_run w st progs sched = map (solo_run w st) progs.
-Proof.
-  intros w st progs sched Hw Hg. destruct (warm_context_safe w st progs sched Hw Hg) as [H1 H2]. congruence.
-Qed.
-Print Assumptions C19_warm_context_solo.
+  conc_guard w st progs = true -> conc_run w st progs sched = map (solo_run w st) progs.
+Proof. intros w st progs sched Hg. destruct (context_safe w st progs sched Hg) as [H1 H2]. congruence. Qed.
+Print Assumptions C19_context_safe_solo.
+
+(* the schedule of the former cold-index race is harmless now *)
+Theorem C19_former_race_schedule_harmless :
+  conc_run W s0 [ftPA; ftPA] race_sched = [solo_run W s0 ftPA; solo_run W s0 ftPA]
+  /\ conc_run W s0 [parsePA; parsePA] race_sched = [solo_run W s0 parsePA; solo_run W s0 parsePA]
+  /\ solo_run W s0 ftPA = ROk (Node (q "c:2") []).
+Proof. exact race_sched_harmless. Qed.
+Print Assumptions C19_former_race_schedule_harmless.
 
 (* the guard is not vacuous: eight threads (serialize, parse with and without a target
    class, find_type, fetch with xsi:type, a class that cannot be built, a truncated
-   document) on a context warmed by one lookup *)
+   document) on a cold context, on a warm one, and three on one with a stale index *)
 Theorem C19_guard_nonvacuous :
-  warm_b W warm1 = true /\ conc_guard W (s_cache warm1) good_threads = true.
-Proof. split; [exact warm1_is_warm|exact conc_guard_nonvacuous]. Qed.
+  conc_guard W s0 good_threads = true /\ conc_guard W warm1 good_threads = true
+  /\ conc_guard W stale1 [ftPA; parsePA; ftPA] = true.
+Proof.
+  split; [exact conc_guard_cold|]. split; [exact conc_guard_warm|]. destruct conc_guard_stale. assumption.
+Qed.
 Print Assumptions C19_guard_nonvacuous.
